@@ -1105,6 +1105,39 @@ def fixed_bsi_episodes(g):
                 g.emit("bstream %s %s" % (t, m))
                 g.emit("bdump %s" % t)
                 g.emit("bequals %s %s" % (t, m))
+        # batch reads with REPEATED column ids — of a column holding 0, a negative value, a wide value, and of absent columns
+        if w == "64":
+            q = g.fresh("fx")
+            g.emit("bnew %s 64" % q)
+            for c, v in [(4, 0), (5, 0), (20, 7), (21, -3), (8589934599, 0), (9, 4611686018427387905)]:
+                g.emit("bset %s %d %d" % (q, c, v))
+            g.emit("bset %s 5 9" % q)
+            g.emit("bset %s 5 0" % q)          # overwritten with zero
+            for cols in ([4, 4], [4, 5, 4, 5, 5], [20, 4, 20, 4, 77, 77, 21, 21], [8589934599, 3, 8589934599, 9, 9, 4], [77, 4, 77]):
+                g.emit("bgets %s %s" % (q, " ".join(map(str, cols))))
+                g.emit("bgetsbig %s %s" % (q, " ".join(map(str, cols))))
+            cq = g.fresh("fx")
+            g.emit("bclone %s %s" % (cq, q))
+            g.emit("bgets %s 4 5 4 5 21 21" % cq)
+        # ParOr of several participants WIDER than the receiver, in every order of their widths (disjoint columns)
+        for order in ((0, 1, 2), (2, 1, 0), (1, 2, 0), (2, 0, 1), (1, 0, 2)):
+            rcv = g.fresh("fp")
+            g.emit("bnew %s %s" % (rcv, w))
+            g.emit("bset %s 1 3" % rcv)
+            parts = []
+            for j, (c0, vals) in enumerate([(10, [5, 7, 6]), (20, [900, 513, 1000]), (30, [70000, 99999, 65536])]):
+                t = g.fresh("fp")
+                g.emit("bnew %s %s" % (t, w))
+                for i, v in enumerate(vals):
+                    g.emit("bset %s %d %d" % (t, c0 + i, v))
+                parts.append(t)
+            g.emit("bparor %s %d %s" % (rcv, 2, " ".join(parts[i] for i in order)))
+            g.emit("bdump %s" % rcv)
+            g.emit("bget %s 30" % rcv)
+            g.emit("bget %s 21" % rcv)
+            c2 = g.fresh("fp")
+            g.emit("bclone %s %s" % (c2, rcv))
+            g.emit("bdump %s" % c2)
         g.count("bsi:fixed-episodes")
 
 
